@@ -746,14 +746,23 @@ def _value_must_not_allow(cx, space, label, loader, value_repr, vsig=None):
         acc.outcome('rejected-at-load')
         acc.ev()
         return
-    if 'p' not in rules:
+    with_default = label.endswith('+default')
+    if 'p' not in rules and not with_default:
         acc.outcome('absent')
         return
-    cx.enf.set_rules(rules, use_conf=False)
+    # (next to an allowing default rule even an ABSENT p must not allow: the
+    # file defines p, a loader that drops the entry hands it to the default)
+    enf = cx.enf
+    if with_default:
+        enf = getattr(cx, 'enf_default', None)
+        if enf is None:
+            enf = cx.enf_default = world.bare_enforcer(
+                default_rule='default')
+    enf.set_rules(rules, use_conf=False)
     for creds in S5_CREDS:
         acc.ev()
         try:
-            got = bool(cx.enf.enforce('p', {}, dict(creds)))
+            got = bool(enf.enforce('p', {}, dict(creds)))
         except Exception as e:
             # not loading is fine, loading and then crashing at enforcement
             # is neither "rejected at load" nor "denies"
@@ -808,6 +817,12 @@ def run_S5(cx, job):
                               lambda: P.Rules.from_dict({'p': v}), vr, sig(v))
         _value_must_not_allow(cx, 'S5', 'json',
                               lambda: P.Rules.load(json.dumps({'p': v})), vr, sig(v))
+        # ... next to a default rule that allows everybody: the name p is
+        # DEFINED (by a non-rule), the default has no say
+        _value_must_not_allow(
+            cx, 'S5', 'json+default',
+            lambda: P.Rules.load(json.dumps({'p': v, 'default': '@'}),
+                                 'default'), vr, sig(v))
         if how == 'alone':
             _value_must_not_allow(
                 cx, 'S5', 'yaml',
